@@ -45,7 +45,7 @@ func main() {
 	frag, haveFrag := pktgen.FragmentNames()
 	regs := pktgen.All()
 	sample := map[proto.Protocol]bool{}
-	for _, v := range pktgen.SampleVersions(f.Tier == "thorough") {
+	for _, v := range pktgen.SampleVersions(f.Tier != "quick") { // thorough and search: every supported version
 		sample[v] = true
 	}
 	// every (state, dir, type) is also run at the first and the last protocol it is registered for
@@ -66,7 +66,7 @@ func main() {
 	}
 	perReg := 2
 	if f.Tier == "search" {
-		perReg = 12
+		perReg = 1
 	}
 	if f.Tier == "thorough" {
 		perReg = 4
